@@ -36,6 +36,7 @@ type AdvCfg struct {
 	Network  string `json:"network,omitempty"` // override of the network/asset fields of a request: "", "othernet", "otherasset", "both", "none"
 
 	FeeSat          int64     `json:"fee_sat,omitempty"` // fee invoice amount when answering a swap-out (-1 => none)
+	FeeMsatRaw      uint64    `json:"fee_msat_raw,omitempty"` // if set: exact msat amount of the fee invoice (extremes)
 	Open            OpenKnobs `json:"open"`
 	Inv             InvKnobs  `json:"inv"`
 	AnnounceDelayMs int       `json:"announce_delay_ms,omitempty"`
@@ -346,7 +347,11 @@ func (p *advPeer) onMessage(from int, typ int, payload []byte) {
 		payreq := ""
 		if fee > 0 {
 			pre := hex.EncodeToString(rand32())
-			inv, err := w.LN.NewInvoice(p.id, uint64(fee)*1000, pre, s.id, swap.INVOICE_FEE, "fee", 600, 9)
+			msat := uint64(fee) * 1000
+			if cfg.FeeMsatRaw != 0 {
+				msat = cfg.FeeMsatRaw
+			}
+			inv, err := w.LN.NewInvoice(p.id, msat, pre, s.id, swap.INVOICE_FEE, "fee", 600, 9)
 			if err == nil {
 				s.feeInv = inv
 				payreq = inv.Payreq
